@@ -9,13 +9,13 @@ import (
 
 // FileCfg is a storage configuration for a File function.
 type FileCfg struct {
-	Kind    string `json:"kind"`              // plain | gz | gz2 (two concatenated members) | gztrunc | dir | missing | missing-parent | through-file
-	Level   int    `json:"level,omitempty"`   // gzip level for gz kinds
-	Split   int    `json:"split,omitempty"`   // gz2: where the input is split between the members
-	Cut     int    `json:"cut,omitempty"`     // gztrunc: compressed bytes kept
-	GzBytes int    `json:"gz_len,omitempty"`  // informational: compressed length
-	Ext     string `json:"ext,omitempty"`     // extension without dot, e.g. fa
-	Name    string `json:"name,omitempty"`    // file name used (relative to the scratch directory)
+	Kind    string `json:"kind"`             // plain | gz | gz2 (two concatenated members) | gztrunc | dir | missing | missing-parent | through-file
+	Level   int    `json:"level,omitempty"`  // gzip level for gz kinds
+	Split   int    `json:"split,omitempty"`  // gz2: where the input is split between the members
+	Cut     int    `json:"cut,omitempty"`    // gztrunc: compressed bytes kept
+	GzBytes int    `json:"gz_len,omitempty"` // informational: compressed length
+	Ext     string `json:"ext,omitempty"`    // extension without dot, e.g. fa
+	Name    string `json:"name,omitempty"`   // file name used (relative to the scratch directory)
 }
 
 // Disk is the simulated storage: a scratch directory which the process has
